@@ -124,6 +124,18 @@ func main() {
 		}
 		fmt.Println(r.Stats)
 		os.Exit(0)
+	case "partialcopy":
+		p, err := Load(os.Args[2])
+		if err != nil {
+			fmt.Println(err)
+			os.Exit(2)
+		}
+		found, n := findPartialCopies(p, func(fn *FuncNode) bool { return true })
+		for _, pc := range found {
+			fmt.Println(p.Position(pc.lit.Pos()), pc.fn.Name, pc.typ, pc.omitted)
+		}
+		fmt.Println("examined", n)
+		os.Exit(0)
 	case "weaken":
 		filter := ""
 		if len(os.Args) > 3 {
